@@ -11,6 +11,7 @@ import (
 	"sync"
 	"unicode/utf8"
 
+	"github.com/sdcio/cache/proto/cachepb"
 	"github.com/sdcio/data-server/pkg/cache"
 	"github.com/sdcio/data-server/pkg/config"
 	"github.com/sdcio/data-server/pkg/tree/importer"
@@ -1422,12 +1423,28 @@ func (s *sharedEntryAttributes) loadSwitchedChoiceCaseElements(ctx context.Conte
 					// nothing remains of this element
 					continue
 				}
-				entries := s.treeContext.GetTreeSchemaCacheClient().ReadCurrentUpdatesHighestPriorities(ctx, PathSlices{append(s.Path(), elemName)}, uint64(len(owners)+1))
+				// all priorities are read: a read that is limited to a number of priorities per path ends at the first
+				// path below the element that holds more of them, and misses the paths that follow
+				entries := s.treeContext.GetTreeSchemaCacheClient().Read(ctx, &cache.Opts{Store: cachepb.Store_INTENDED, Priority: -1}, [][]string{append(s.Path(), elemName)})
+				// per path the highest precedence entry of the owners that do not take part in the transaction
+				// is needed, the entries of those that do are in the tree already
+				best := map[string]*cache.Update{}
+				paths := []string{}
 				for _, entry := range entries {
-					// the entries of the owners that take part in the transaction are in the tree already
 					if _, isActing := owners[entry.Owner()]; isActing {
 						continue
 					}
+					key := strings.Join(entry.GetPath(), KeysIndexSep)
+					cur, exists := best[key]
+					if !exists {
+						paths = append(paths, key)
+					}
+					if !exists || entry.Priority() < cur.Priority() {
+						best[key] = entry
+					}
+				}
+				for _, key := range paths {
+					entry := best[key]
 					if _, err := s.AddCacheUpdateRecursive(ctx, entry, flags); err != nil {
 						log.Errorf("loading %s of the choice case %s: %v", strings.Join(entry.GetPath(), "/"), caseName, err)
 					}
